@@ -213,7 +213,11 @@ CLAIMS = {
     text="Lean 4 theorems: the bincode wire format of Dual, Dual2, Number, PPSpline (3 types), FXRates (quotes + currencies "
          "only), NamedCal (name only) and Curve (typed node map, interpolator, id, convention, modifier, index base, named calendar), modelled from serde's derive layout, round-trips for every value whose sizes fit "
          "64 bits - floats as arbitrary bit patterns (C16_bincode_*; combinator lemmas for integers, sequences, strings, "
-         "options, ndarray). The model's bytes are compared byte for byte with the implementation's on every run. PARTIAL "
+         "options, ndarray). The model's bytes are compared byte for byte with the implementation's on every run. JSON at "
+         "document level: the forms of the documents to_json writes for Dual, Dual2, float-noded curves (timestamps of any "
+         "sign and digit count), float splines (solved or not) and FX markets are model definitions, recognised in the "
+         "library's own to_json output on every run (`written` lines), and C16_written_{dual,dual2,curve,spline,fxrates}_loads "
+         "prove the loader model accepts each with exactly the written shape under the type invariants. PARTIAL "
          "(validation, not proof): JSON text layer, tagged entry point, Cal/UnionCal and 'answers every "
          "query identically' are decided by model-free round trips on the real code with arbitrary finite doubles (they "
          "exposed the missing float_roundtrip feature, repaired).",
@@ -254,7 +258,9 @@ CLAIMS = {
          "som / imm / unspecified (C20_add_months_total, using ofDay_bounds); adjustment returns a date whenever an "
          "eligible day is within reach (C20_adjust_total). Every validating constructor returns an error or a value with "
          "its shape invariants (C20_dual_try_new, C20_dual2_try_new, C20_ccy_try_new, C20_fxpair_try_new, "
-         "C20_named_try_new, C20_fxrates_try_new, C20_csolve). Loading: for EVERY JSON tree the tagged entry point returns "
+         "C20_named_try_new, C20_fxrates_try_new, C20_csolve); a pair is accepted EXACTLY when both codes have three bytes "
+         "and differ after lower-casing (C20_fxpair_accepts_iff, C20_fxpair_self_rejected) and a stored currency name is a "
+         "fixed point of the constructor (C20_ccy_stored_name_reloads, C20_lower_idempotent). Loading: for EVERY JSON tree the tagged entry point returns "
          "an error or a value whose shape invariants hold, with no abort path (C20_load_tagged and the per-type "
          "C20_load_*), over a Lean model of serde's derived visitors, ndarray's visitor and the validating data models. "
          "The correspondence run executes every call of the real code under catch_unwind (JSON loading in a worker "
@@ -270,6 +276,8 @@ CLAIMS = {
     design_ref="DESIGN.md §3 C20",
     note="Trusted: Lean kernel; the hand-written model's placement of panic markers (validated by catch_unwind on every "
          "call); the driver's JSON tokenizer; chrono/serde_json/ndarray themselves. Rust's Unicode lower-casing modelled "
-         "as ASCII.",
+         "by lowerStr, exact on U+0000-U+00FF and U+0400-U+045F (every code point swept on every run), cased letters "
+         "elsewhere outside the modelled domain. The per-type from_json entry points (NamedCal, Cal, UnionCal, FXRates, Dual, "
+         "Dual2) receive the same mutated documents as the tagged one (`loadtyped` lines).",
     technique="Lean 4 proof (totality and shape invariants over every input / every JSON tree) + differential correspondence under catch_unwind and process isolation + model-free oracle"),
 }
